@@ -62,9 +62,15 @@ Theorem C13_points_padded : forall (z : Z) (p : list Z), (1 <= length p <= 3)%na
 Proof. intros. apply pad3_spec. assumption. Qed.
 Print Assumptions C13_points_padded.
 
-(* not proved here (kept visible): the csv part of the statement is tied by execution only
-   csv_structure_roundtrip_partial : read_csv "," true (write_csv T) = T  for tables whose names and string cells contain
-   no delimiter / newline / quote, are non-empty and not parseable as numbers, with parse (print x) = x for numbers. *)
+(* tables: the file written by _write_table (names joined by "," and a newline, then one such line per row) is split by the
+   reader's line / delimiter structure into the same names and the same cells, for names and cells that are non-empty
+   and contain neither the delimiter nor a newline.  Cells are the printed values; that Python's str(float) / float(str)
+   and str(int) / int(str) round-trip, and numpy's column typing, are oracles exercised by the harness. *)
+Theorem C13_csv_structure_roundtrip : forall names rows,
+  names <> [] -> Forall clean names -> Forall (fun r => r <> [] /\ Forall clean r) rows ->
+  read_table (write_table names rows) = Some (names, rows).
+Proof. exact csv_structure_roundtrip. Qed.
+Print Assumptions C13_csv_structure_roundtrip.
 
 (* concrete instance: an Int16 vector field with extreme values (3 rows x 3 components), a Float64 scalar given by bit
    patterns, and a hybrid mesh written as quads then triangles and read back as triangles (5) then quads (9) *)
@@ -75,5 +81,7 @@ Example C13_nonvacuous :
     = Some [[9223372036854775808]; [1]; [4607182418800017408]]%Z /\
   (let g := [(9, [[0; 1; 2; 3]; [1; 4; 5; 2]]); (5, [[4; 6; 5]])] in
    regroup_cells (writer_connectivity g) (writer_offsets g) (writer_types g)
-   = [(5, [[4; 6; 5]]); (9, [[0; 1; 2; 3]; [1; 4; 5; 2]])]).
+   = [(5, [[4; 6; 5]]); (9, [[0; 1; 2; 3]; [1; 4; 5; 2]])]) /\
+  read_table (write_table [[120]; [121; 122]] [[[49; 46; 53]; [97]]; [[50]; [98; 99]]])
+    = Some ([[120]; [121; 122]], [[[49; 46; 53]; [97]]; [[50]; [98; 99]]]).
 Proof. vm_compute. repeat split; reflexivity. Qed.
